@@ -294,7 +294,33 @@ impl Property for P {
             gen::penalties_any(),
         )
             .prop_map(|(frags, widths, pen)| Case::UsizeFrags { frags, widths, pen });
-        prop_oneof![6 => text_case, 2 => frags_case, 2 => usize_case].boxed()
+        let mut og2 = OptGen::full();
+        og2.algos = gen::AlgoSet::Any;
+        og2.custom_splitters = false;
+        let big_text = (
+            gen::scaled_text_and_width(mix, 3000),
+            gen::optspec(og2),
+            1usize..=8,
+            gen::indent(),
+        )
+            .prop_map(|((text, w), mut spec, columns, prefix)| {
+                spec.width = w;
+                Case::Text {
+                    text,
+                    spec,
+                    columns,
+                    gaps: ("| ".into(), " | ".into(), " |".into()),
+                    prefix,
+                    limit: w % 9,
+                }
+            });
+        let big_frags = (
+            gen::log_count(3000).prop_flat_map(|k| prop::collection::vec((any_usize(), any_usize(), any_usize()), k..=k)),
+            prop::collection::vec(any_usize(), 0..=4),
+            gen::penalties_any(),
+        )
+            .prop_map(|(frags, widths, pen)| Case::UsizeFrags { frags, widths, pen });
+        prop_oneof![60 => text_case, 20 => frags_case, 20 => usize_case, 1 => big_text, 1 => big_frags].boxed()
     }
     fn check(c: &Case, _m: Mode) -> Outcome {
         check(c)
